@@ -447,8 +447,21 @@ func (st *stack) drain(us int) bool {
 	if us > 0 {
 		ctx, cancel = context.WithTimeout(ctx, time.Duration(us)*time.Microsecond)
 	} else {
-		ctx, cancel = context.WithTimeout(ctx, 20*time.Second)
+		ctx, cancel = context.WithTimeout(ctx, 10*time.Second)
 	}
+	defer cancel()
+	t0 := st.rec.tick()
+	err := st.srv.DrainSends(ctx)
+	t1 := st.rec.tick()
+	st.rec.mu.Lock()
+	st.rec.drains = append(st.rec.drains, drainRec{t0: t0, t1: t1, ok: err == nil})
+	st.rec.mu.Unlock()
+	return err == nil
+}
+
+// drainCap is DrainSends bounded only by a safety cap.
+func (st *stack) drainCap(limit time.Duration) bool {
+	ctx, cancel := context.WithTimeout(context.Background(), limit)
 	defer cancel()
 	t0 := st.rec.tick()
 	err := st.srv.DrainSends(ctx)
